@@ -122,9 +122,14 @@ def scipy_scenario(rng: random.Random, prop: str, *, method: str | None = None, 
         coef = []
         for _ in range(nl):
             row = [round(rng.uniform(-2, 2), 3) for _ in range(nv)]
-            if mask is not None and rng.random() < 0.6:
+            c_kind = rng.random()
+            if mask is not None and c_kind < 0.55:
                 # rows that do not touch fixed variables are retained
                 row = [c if m else 0.0 for c, m in zip(row, mask)]
+            elif mask is not None and c_kind < 0.7:
+                # rows that touch a fixed variable ever so slightly (still not "zero on the fixed variables")
+                row = [c if m else (rng.choice([-1, 1]) * rng.choice([1e-9, 1e-10, 1e-12]) if rng.random() < 0.7 else 0.0)
+                       for c, m in zip(row, mask)]
             if all(abs(c) < 1e-9 for c in row):
                 row[[i for i in range(nv) if mask is None or mask[i]][0]] = 1.0
             coef.append(row)
